@@ -165,10 +165,25 @@ def step (st : St) (line : String) : St × String :=
       | .ok s' => ({ st with heap := st.heap.writeSeq o s'.seq }, "ok")
       | .error e => (st, showErr e)
     | _, _, _ => (st, "bad-op")
-  | ["cp_addfeat", f] =>
-    match st.get true, parseFeature f with
-    | some (o, s), some f => ({ st with heap := st.heap.writeAnnot o (s.annot ++ [f]) }, "ok")
-    | _, _ => (st, "bad-op")
+  | [op, v] =>
+    -- editing the dictionary handed out by `Feature.qual`: `qualAccess` says what that does to the feature
+    if op == "mut_qual" || op == "cp_mut_qual" then
+      match st.get (op == "cp_mut_qual"), v.toNat? with
+      | some (o, s), some q =>
+        ({ st with heap := st.heap.writeAnnot o (s.annot.map (mutQualThrough qualAccess q)) }, "ok")
+      | _, _ => (st, "bad-op")
+    else if op == "cp_addfeat" then
+      match st.get true, parseFeature v with
+      | some (o, s), some f => ({ st with heap := st.heap.writeAnnot o (s.annot ++ [f]) }, "ok")
+      | _, _ => (st, "bad-op")
+    else (st, "bad-op")
+  | [op] =>
+    if op == "mut_features" || op == "cp_mut_features" then
+      match st.get (op == "cp_mut_features") with
+      | some (o, s) =>
+        ({ st with heap := st.heap.writeAnnot o ((clearThrough featuresAccess s.annot).map (clearLocsThrough locsAccess)) }, "ok")
+      | none => (st, "bad-op")
+    else (st, "bad-op")
   | ["cp_setf", f, x] =>
     match st.get true, parseFeature f, parseSeq x with
     | some (o, s), some f, some x =>
